@@ -132,6 +132,18 @@ CLAIMED = {
          "defaulted parameter, every border mode) in isolated workers with a per-call alarm and RLIMIT_AS, and again on the "
          "AddressSanitizer build",
          "Rocq proof (guards imply kernel preconditions) + C++/Python guard translator + isolated-process degenerate-argument runs"),
+ "C12": ("proof", "partial: the interference logic is proved, the behaviour of the compiled kernels under real threads is observed. Coq "
+         "theorems: for calls whose steps read only locations they own or that are shared read-only and write only locations they "
+         "own, EVERY schedule (arbitrary list of call identifiers, any length) leaves each call with the local state and owned "
+         "memory it has when run alone, and shared inputs unchanged (induction over the schedule); a lazily initialised module "
+         "value published complete is observed identically by every caller; the RAII lock object re-acquires the lock on every "
+         "exit path. The discipline is tied to the code by an inventory RE-TRANSLATED from all C++ and Python sources on every "
+         "run: no static data, no namespace variable reassigned, every gil_release a stack object with the save/restore protocol, "
+         "the only module-level Python state is a lazy table built in a local and published last, no module-level container is "
+         "mutated. Runtime half (support): thread-pool jobs in isolated processes - same arguments shared by 8 threads, one kernel "
+         "on different arguments (sizes to 320x320) after a raising call, mixes of 2-32 calls incl. raising ones, cold starts - "
+         "compared bit-exactly with the solo outcomes, plus reference-count drift of the shared inputs",
+         "Rocq proof (serial equivalence for all schedules) + source inventory translator + thread-pool differential runs"),
 }
 NOT_YET = "check not built yet in this round (see DESIGN.md section 8 for the plan)"
 ALL = ["C%02d" % i for i in range(1, 21)]
